@@ -149,25 +149,35 @@ Theorem C02_funds_site_complete :
 Proof. exact funds_site_complete. Qed.
 Print Assumptions C02_funds_site_complete.
 
-(* symbolic JUMP: every valuation that jumps to a valid destination is covered *)
-Theorem C02_symjump_complete_partial :
+(* symbolic JUMP (--symbolic-jump): every valuation of the path is covered -- by the branch of its destination when
+   that is a valid one, by the halting branch otherwise (the latter since the repair of the former finding
+   C02-symbolic-jump-invalid-destination) *)
+Theorem C02_symjump_complete :
+  forall (V : Type) (chk : cnd V -> Z) (path : V -> Prop) (valid : list Z) (dst : V -> Z) l (v : V),
+    (forall c, chk c = 0 -> forall v', path v' -> c v' = false) ->
+    path v -> jump_alternatives V chk valid dst = Some l ->
+    (exists t c, In (t, c) l /\ c v = true) \/
+    (exists c, jump_invalid_alternative V chk valid dst = Some c /\ c v = true).
+Proof. exact jump_complete. Qed.
+Print Assumptions C02_symjump_complete.
+
+Theorem C02_symjump_complete_valid :
   forall (V : Type) (chk : cnd V -> Z) (path : V -> Prop) (valid : list Z) (dst : V -> Z) l (v : V),
     (forall c, chk c = 0 -> forall v', path v' -> c v' = false) ->
     path v -> In (dst v) valid -> jump_alternatives V chk valid dst = Some l ->
     exists t c, In (t, c) l /\ c v = true.
 Proof. exact jump_complete_valid. Qed.
-Print Assumptions C02_symjump_complete_partial.
+Print Assumptions C02_symjump_complete_valid.
 
-(* ... but a valuation that jumps to an INVALID destination is covered by no branch when some valid
-   destination is feasible: the halting outcome is not reported (known finding
-   C02-symbolic-jump-invalid-destination, --symbolic-jump only) *)
-Theorem C02_symjump_invalid_refuted :
-  exists (valid : list Z) (dst : bool -> Z) (chk : cnd bool -> Z) (v : bool) l,
+(* regression example of the former finding: the valuation that jumps to an invalid destination while a valid one is
+   feasible is covered by no valid branch -- and now by the halting branch *)
+Example C02_symjump_invalid_covered :
+  exists (valid : list Z) (dst : bool -> Z) (chk : cnd bool -> Z) (v : bool) l c,
     (forall c, chk c = 0 -> forall v', c v' = false) /\
     ~ In (dst v) valid /\ jump_alternatives bool chk valid dst = Some l /\
-    forall t c, In (t, c) l -> c v = false.
-Proof. exact jump_invalid_destination_dropped. Qed.
-Print Assumptions C02_symjump_invalid_refuted.
+    (forall t c, In (t, c) l -> c v = false) /\
+    jump_invalid_alternative bool chk valid dst = Some c /\ c v = true.
+Proof. exact jump_invalid_destination_covered. Qed.
 
 (* vm.assert*: an input on which the asserted relation is false is always covered by a state that ends
    as a failed assertion (so the counterexample reaches the solver), and no input is dropped *)
